@@ -181,24 +181,25 @@ type CoverInfo struct {
 }
 
 type HarnessResult struct {
-	Harness       string                    `json:"harness"`
-	Paths         int                       `json:"paths"`
-	Outcomes      map[string]int            `json:"outcomes"`
-	Obligations   int                       `json:"obligations"`
-	Discharged    int                       `json:"discharged"`
-	ByResult      map[string]int            `json:"by_result"`
-	ByLabel       map[string]map[string]int `json:"by_label"`
-	Covers        map[string]*CoverInfo     `json:"covers"`
-	Violations    []Violation               `json:"violations"`
-	Inconclusive  []string                  `json:"inconclusive"`
-	Funcs         []string                  `json:"functions"`
-	Steps         int64                     `json:"steps"`
-	UnknownFeas   int                       `json:"unknown_feasibility"`
-	WallS         float64                   `json:"wall_s"`
-	SamplePaths   []string                  `json:"sample_paths"`
-	PathBudgetHit bool                      `json:"path_budget_hit"`
-	KnownHits     []KnownHit                `json:"known_hits"`
-	Decisions     int                       `json:"decisions"`
+	Harness         string                    `json:"harness"`
+	Paths           int                       `json:"paths"`
+	Outcomes        map[string]int            `json:"outcomes"`
+	Obligations     int                       `json:"obligations"`
+	Discharged      int                       `json:"discharged"`
+	ByResult        map[string]int            `json:"by_result"`
+	ByLabel         map[string]map[string]int `json:"by_label"`
+	Covers          map[string]*CoverInfo     `json:"covers"`
+	Violations      []Violation               `json:"violations"`
+	Inconclusive    []string                  `json:"inconclusive"`
+	Funcs           []string                  `json:"functions"`
+	Steps           int64                     `json:"steps"`
+	UnknownFeas     int                       `json:"unknown_feasibility"`
+	WallS           float64                   `json:"wall_s"`
+	SamplePaths     []string                  `json:"sample_paths"`
+	PathBudgetHit   bool                      `json:"path_budget_hit"`
+	KnownHits       []KnownHit                `json:"known_hits"`
+	Decisions       int                       `json:"decisions"`
+	InfeasibleSites map[string]int            `json:"infeasible_sites,omitempty"`
 }
 
 type Run struct {
@@ -309,6 +310,12 @@ func (p *Program) RunHarness(fn *ssa.Function, opts Options) *HarnessResult {
 				hr.Paths++
 			}
 			hr.Outcomes[res.Outcome]++
+			if res.Outcome == "infeasible" {
+				if hr.InfeasibleSites == nil {
+					hr.InfeasibleSites = map[string]int{}
+				}
+				hr.InfeasibleSites[res.Msg]++
+			}
 			hr.Steps += res.Steps
 			hr.UnknownFeas += res.UnknownFeas
 			for _, o := range res.Obligations {
